@@ -71,9 +71,10 @@ def prevIndex (vec : List Rat) (val : Rat) : Nat := ssLeft vec val - 1
 
 def sumQ (l : List Rat) : Rat := l.foldl (· + ·) 0
 
-/-- the shift `delt` of the `if align:` block; `none` = an exception (`argmax` of an empty
-sequence, index out of range) -/
-def alignShift (told tnew0 : List Rat) (tp : List Nat) (dt : Rat) : Option Rat :=
+/-- the shift `delt` of the `if align:` block and whether the lengths of the "good" sections
+differed (the warning branch); `none` = an exception (`argmax` of an empty sequence, index out of
+range) -/
+def alignShift (told tnew0 : List Rat) (tp : List Nat) (dt : Rat) : Option (Rat × Bool) :=
   match argmaxFirst (diffsN tp) with
   | none => none
   | some j =>
@@ -87,9 +88,9 @@ def alignShift (told tnew0 : List Rat) (tp : List Nat) (dt : Rat) : Option Rat :
         let tgood := (tnew0.take (n + 1)).drop p
         if tgood.length ≠ good.length then
           match tgood.head? with
-          | some h => some (g0 - h)
+          | some h => some (g0 - h, true)
           | none => none
-        else some (sumQ (List.zipWith (· - ·) good tgood) / (good.length : Rat))
+        else some (sumQ (List.zipWith (· - ·) good tgood) / (good.length : Rat), false)
       | _, _ => none
     | _, _ => none
 
@@ -98,6 +99,8 @@ structure Tnew where
   tp : List Nat
   align : Bool
   delt : Rat
+  /-- the "lengths of old time vector and new time vector do not match" branch was taken -/
+  mismatch : Bool
 
 /-- the grid before alignment: `np.arange(L) / sr + told[0]` -/
 def grid0 (t0 sr : Rat) (L : Nat) : List Rat := (List.range L).map fun (k : Nat) => ((k : Int) : Rat) / sr + t0
@@ -114,9 +117,9 @@ def mkInitialTnew (told : List Rat) (sr : Rat) : Option Tnew :=
     let ta := timeShifts told dt
     if ta.2 then
       match alignShift told tnew0 ta.1 dt with
-      | some delt => some ⟨tnew0.map (· + delt), ta.1, true, delt⟩
+      | some (delt, mm) => some ⟨tnew0.map (· + delt), ta.1, true, delt, mm⟩
       | none => none
-    else some ⟨tnew0, ta.1, false, 0⟩
+    else some ⟨tnew0, ta.1, false, 0, false⟩
   | _, _ => none
 
 end PyYetiVerif.Fixtime
